@@ -27,11 +27,11 @@ SPEC = {
              "write through a handle and one later read of a written point; distinct = distinct case."),
     "shards": {"quick": 16, "thorough": 16},
     "min_counts": {"quick": {"evaluations": 300, "reads_checked": 3000, "refs_checked": 1500, "model_compares": 5000,
-                             "startpos_checked": 500, "coord2pos_contract_evals": 5000, "fresh_default_checked": 300}},
+                             "startpos_checked": 500, "walk_steps": 500, "coord2pos_contract_evals": 5000, "fresh_default_checked": 300}},
     "assumptions": [
         "legal start_pos: None, or p with 0 <= p < len(coords) and coords[p] <= coord; single-coordinate accesses only (as the API asserts)",
         "saved-position statistics are not part of the tree and are not compared",
-        "free (unowned) fibers at depth 1 only",
+        "free (unowned) fibers at depth 1, and at depth 2 only as canonical trees with a non-empty root (an unowned empty interior fiber cannot know its payload type)",
     ],
 }
 
@@ -71,8 +71,14 @@ def generate(rng, tier, shard, nshards, mon):
         depth = 0 if r < 0.04 else rng.choice([1, 1, 2, 2, 3])
         default = rng.choice([0, 0, 7])
         ext = [rng.randint(1, 5) for _ in range(depth)]
-        free = depth == 1 and rng.random() < 0.4
+        free = (depth == 1 and rng.random() < 0.4) or (depth == 2 and rng.random() < 0.3)
         spec = gen.rand_tree_spec(rng, ext, rng.choice([0.3, 0.7]), rng.choice([0, 0.5, 0.8]), default) if depth else []
+        if free and depth == 2:
+            # an unowned interior fiber learns its payload type and the leaf default from its first sub-fiber:
+            # canonical tree with a non-empty root
+            spec = gen.canonical_spec(spec, default)
+            if not spec:
+                spec = [[rng.randrange(ext[0]), [[rng.randrange(ext[1]), 5 if default != 5 else 6]]]]
         init = {"depth": depth, "ext": ext, "default": default, "spec": spec, "free": free,
                 "shape": [e + 2 for e in ext] if rng.random() < 0.7 else None, "root0": rng.choice([0, 3])}
         ops = [_gen_op(rng, init) for _ in range(rng.randint(lo, hi))]
@@ -84,13 +90,16 @@ def _gen_op(rng, init):
     ext = init["ext"]
     pt = [rng.randint(0, e + 1) for e in ext]
     kinds = ["get", "get", "get_partial", "get_noalloc", "ref", "ref", "ref", "ref_partial", "stale", "assign_prefix",
-             "getpos", "getposref", "getitem", "get_sp", "ref_sp", "getpos_sp", "drill"]
+             "getpos", "getposref", "getitem", "get_sp", "ref_sp", "getpos_sp", "drill", "walk", "walk"]
     k = rng.choice(kinds)
     op = {"op": k, "pt": pt, "via": rng.choice(["tensor", "root"]), "r": rng.randrange(1 << 16),
           "act": rng.choice(["none", "set", "set", "add", "mul", "sub", "default"]), "v": rng.choice([1, 2, 3, -1, 5, 0]),
           "cut": rng.randint(1, max(1, depth - 1)) if depth > 1 else 1, "cd": rng.choice([None, 42, -5, 0]),
           "path": [rng.randrange(6) for _ in range(rng.randint(0, max(0, depth - 1)))], "c": rng.randint(0, 7),
           "boxed": rng.random() < 0.3, "hold": rng.random() < 0.4}
+    if k == "walk":
+        cs = sorted(rng.sample(range(0, 10), rng.randint(2, 6)))
+        op["walk"] = [[c, rng.choice(["getPayload", "getPosition", "getPayload", "getPayloadRef", "getPositionRef"])] for c in cs]
     return op
 
 
@@ -345,6 +354,47 @@ def run_case(case, mon):
                     same = (isinstance(p1, Fiber) and isinstance(p0, Fiber) and not p1.coords) or (unbox(p0) == unbox(p1) == d)
                     mon.check(same, "read:start_pos:value", f"getPayload({c}, start_pos={sp}) returned {p1!r}, without shortcut {p0!r}")
                 mon.check(snap(subject) == before, "read:start_pos:modified-tree", "getPayload with start_pos changed the tree")
+            elif k == "walk":
+                # the documented shortcut idiom: an ascending walk in which every access starts its search at
+                # the position saved by the previous one (start_pos=f.getSavedPos())
+                f, pre = _resolve(root, op["path"])
+                leaf_level = len(pre) == depth - 1
+                f.setSavedPos(0)
+                for c, how in op["walk"]:
+                    if how.endswith("Ref") and not (leaf_level or t is not None):
+                        how = "getPayload"
+                    sp = f.getSavedPos()
+                    if sp >= len(f.coords) and len(f.coords) > 0:
+                        mon.violation("walk:saved-position-past-end", f"saved position {sp} after an ascending walk step, fiber has {len(f.coords)} elements")
+                        return
+                    if f.coords and 0 < sp < len(f.coords) and f.coords[sp] > c:
+                        mon.violation("walk:saved-position-beyond-next-coordinate",
+                                      f"position saved by the previous access ({sp}, coordinate {f.coords[sp]}) lies beyond the next coordinate {c} of an ascending walk")
+                        return
+                    mon.count("startpos_checked")
+                    mon.count("walk_steps")
+                    spv = Payload(sp) if op["boxed"] else sp
+                    stored = _raw_lookup(f, (c,))
+                    if how == "getPayload":
+                        p = f.getPayload(c, start_pos=spv)
+                        if stored is not None:
+                            mon.check(p is stored, "walk:getPayload:not-stored-object", f"walk getPayload({c}, start_pos={sp}) did not return the stored payload; coords {f.coords}")
+                        else:
+                            okd = (isinstance(p, Fiber) and not p.coords) or (not isinstance(p, Fiber) and unbox(p) == d)
+                            mon.check(okd, "walk:getPayload:value", f"walk getPayload({c}, start_pos={sp}) of an absent coordinate returned {p!r}")
+                    elif how == "getPosition":
+                        pos = f.getPosition(c, start_pos=spv)
+                        want = f.coords.index(c) if c in f.coords else None
+                        mon.check(pos == want, "walk:getPosition:index", f"walk getPosition({c}, start_pos={sp}) returned {pos}, raw index {want} in {f.coords}")
+                    elif how == "getPayloadRef":
+                        ref = f.getPayloadRef(c, start_pos=spv)
+                        now = _raw_lookup(f, (c,))
+                        mon.check(now is ref and (stored is None or stored is ref), "walk:getPayloadRef:not-aliasing",
+                                  f"walk getPayloadRef({c}, start_pos={sp}) is not the payload stored at {c}")
+                    else:
+                        pos = f.getPositionRef(c, start_pos=spv)
+                        mon.check(isinstance(pos, int) and pos < len(f.coords) and f.coords[pos] == c, "walk:getPositionRef:index",
+                                  f"walk getPositionRef({c}, start_pos={sp}) returned {pos}, coords {f.coords}")
             elif k == "drill":
                 if depth < 2:
                     continue
